@@ -491,6 +491,7 @@ func (c *Ctx) ruleThresholds() {
 	r.Floor(rule, 10)
 	c.ruleGraphsPersist()
 	c.ruleAccessors()
+	c.ruleNodeTypes("C02.types")
 }
 
 // ruleGraphsPersist: C02.persist — the per-type thresholds live in the graph object stored
